@@ -60,10 +60,26 @@ class SendingMessageInit(Contract):
         a = {"self": self_, "msgtype": VInt(z3.Int("msgtype")), "flags": VInt(z3.Int("flags")), "seq": VInt(z3.Int("seq")),
              "serializer_id": VInt(z3.Int("serializer_id")), "payload": VBytes(z3.Const("payload", BytesS)), "annotations": ann}
         st.genv = {"current_context": new_context(st)}
-        self.W = W = WireSpec(st, ann)
-        # lemmas (by induction, obligations generated here): offsets are non-negative and monotone, len(tile(j)) == off(j)
+        a["__W"] = W = WireSpec(st, ann)
+        # lemma (by induction, obligations generated here): offsets are non-negative
         st.assume(E.induction(st, "off>=0", lambda j: W.off(j) >= 0, W.n))
         return a
+
+    def prepare_call(self, E, st, a, outcome):
+        ann = a["annotations"]
+        if isinstance(ann, VNone):
+            from specs.seqdict import empty_seqdict
+            ann = empty_seqdict(st)
+        if not (isinstance(ann, VObj) and ann.cls == "seqdict"):
+            raise Unsupported("SendingMessage with annotations %r" % (ann,))
+        a["__W"] = WireSpec(st, ann)
+        if outcome is None:
+            m = a["self"]
+            st.set(m, "data", VBytes(fresh("msg_wire_bytes", BytesS)))
+            st.set(m, "flags", VInt(fresh("msg_flags", IntS)))
+            st.set(m, "corr_id", VBytes(fresh("msg_corr", BytesS)))
+            for f, k in (("type", "msgtype"), ("seq", "seq"), ("serializer_id", "serializer_id")):
+                st.set(m, f, VInt(fresh("msg_" + f, IntS)))
 
     def requires(self, E, st, a):
         # field values over their full (encodable) ranges; flags fit 16 bits; MAX_MESSAGE_SIZE below the 4 GB of the format
@@ -84,9 +100,14 @@ class SendingMessageInit(Contract):
         ctx = old.genv["current_context"]
         corr = old.get(ctx, "correlation_id")
         f1 = f - 2 * bit(f, 1) + z3.If(comp, 2, 0)
-        has_corr = z3.Not(corr.isnone)
+        if isinstance(corr, VOpt):
+            has_corr, cb = z3.Not(corr.isnone), old.get(corr.val, "bytes").e
+        elif isinstance(corr, VObj):
+            has_corr, cb = z3.BoolVal(True), old.get(corr, "bytes").e
+        else:
+            has_corr, cb = z3.BoolVal(False), bytes_const(b"\0" * 16)
         f2 = f1 + z3.If(z3.And(has_corr, bit(f1, 6) == 0), 64, 0)
-        return f1, f2, has_corr, old.get(corr.val, "bytes").e
+        return f1, f2, has_corr, cb
 
     def compressed(self, E, a):
         return z3.And(E.qualified("Pyro5.config.COMPRESSION").e, z3.Length(a["payload"].e) > 100)
@@ -96,7 +117,7 @@ class SendingMessageInit(Contract):
         return z3.If(self.compressed(E, a), zcompress(p), p)
 
     def ensures(self, E, old, st, a, result):
-        W = self.W
+        W = a["__W"]
         s = a["self"]
         f1, f2, has_corr, corrbytes = self.final_flags(E, old, a)
         p2 = self.wire_payload(E, a)
@@ -115,7 +136,7 @@ class SendingMessageInit(Contract):
 
     def x_protocol(self, E, old, st, a, exc):
         # refused: too large (before anything is built) or a malformed annotation id (witness: the loop's ghost index)
-        W = self.W
+        W = a["__W"]
         total = z3.Length(self.wire_payload(E, a)) + W.off(W.n)
         too_large = total > E.qualified("Pyro5.config.MAX_MESSAGE_SIZE").e
         if "idx0" in st.ghost:
@@ -126,7 +147,7 @@ class SendingMessageInit(Contract):
         return [("refusal-justified", why), ("nothing-built", z3.BoolVal(not st.has(a["self"], "data")))]
 
     def x_struct(self, E, old, st, a, exc):
-        W = self.W
+        W = a["__W"]
         if "idx0" in st.ghost:
             j = st.ghost["idx0"].e
             why = z3.And(0 <= j, j < W.n, z3.Length(W.vals[j]) >= 2 ** 32)
@@ -135,7 +156,7 @@ class SendingMessageInit(Contract):
         return [("only-for-an-annotation-value-of-4GB-or-more", why), ("nothing-built", z3.BoolVal(not st.has(a["self"], "data")))]
 
     def x_unicode(self, E, old, st, a, exc):
-        W = self.W
+        W = a["__W"]
         j = st.ghost["idx0"].e if "idx0" in st.ghost else z3.IntVal(-1)
         return [("only-for-a-non-ascii-id", z3.And(0 <= j, j < W.n, z3.Not(is_ascii_s(W.keys[j])))),
                 ("nothing-built", z3.BoolVal(not st.has(a["self"], "data")))]
@@ -146,10 +167,10 @@ class SendingMessageInit(Contract):
         return val
 
     def sum_function(self, E, st, tag):
-        return self.W.off
+        return E.cur_args["__W"].off
 
     def loop_inv(self, k, E, old, st, a):
-        W = self.W
+        W = a["__W"]
         j = st.ghost["idx0"].e
         ad = st.env["annotation_data"]
         i = z3.Int("i!inv")
@@ -494,8 +515,11 @@ class RecvStub(Contract):
                 ("chunks-end-exactly-at-annotations_size", wpos(P, n) == asz),
                 ("every-chunk-decoded", z3.ForAll([k], z3.Implies(z3.And(0 <= k, k < n), chunk_facts(P, keys, vals, k)))),
                 ("data", z3.If(comp, z3.And(zvalid(body), data.e == zdecompress(body)), data.e == body)),
+                ("field-ranges", z3.And(typ >= 0, typ < 256, ser >= 0, ser < 256, flags >= 0, flags < 65536, seq >= 0, seq < 65536,
+                                        dsz >= 0, asz >= 0)),
+                ("corr_id-16-bytes", z3.Length(st.get(m, "corr_id").e) == 16),
                 ("out-untouched", st.get(sock, "out").e == old.get(sock, "out").e)]
-        if self.variant == "accept-2-types" or not isinstance(a["accepted_msgtypes"], VNone):
+        if not isinstance(a["accepted_msgtypes"], VNone):
             acc = a["accepted_msgtypes"]
             post.append(("type-accepted", z3.Or([typ == x.e for x in acc.items])))
         return post
